@@ -19,7 +19,6 @@ The server verifies like the exchange does, from the raw request line, headers a
 over EVERYTHING received in a scenario - several client objects, retries, dropped requests - and must be pairwise distinct.
 """
 import asyncio
-import itertools
 import json
 import os
 import random
